@@ -63,6 +63,7 @@ Ltac dhd rest := let k := fresh "k" in let s := fresh "s" in let r := fresh "r" 
 
 Ltac norm := repeat rewrite <- app_assoc; cbn [app].
 Ltac norm_all := repeat first [rewrite <- app_assoc in * | progress cbn [app] in * ].
+Ltac norm_gl L := repeat first [rewrite <- app_assoc | rewrite <- app_assoc in L | progress cbn [app] | progress cbn [app] in L].
 Ltac lens := repeat (first [rewrite app_length in * | progress cbn [length] in * ]).
 
 (* ---- ColumnReference ---- *)
@@ -611,23 +612,22 @@ Proof.
   destruct (sel_from s), (sel_group s), (sel_sort s); reflexivity.
 Qed.
 
-Lemma wf_select_items o s : wf_select o s = true -> wf_items o (sel_list s) = true.
-Proof.
-  unfold wf_select. intros W. repeat (apply andb_prop in W as [W ?]). exact W.
-Qed.
-
-Lemma select_rt o s fuel rest : wf_select o s = true -> endtok rest ->
+Lemma select_rt o s fuel rest : wf_select_syn o s = true -> endtok rest ->
   length (r_select o s ++ rest) <= fuel ->
   select_ fuel (r_items o 0 (sel_list s) ++
     match sel_from s with
     | tr :: _ => K KFrom :: r_tref o tr ++ r_where o (sel_where s) ++ r_group_clause o (sel_group s)
     | [] => []
-    end ++ r_sort_clause o (sel_sort s) ++ r_limit o s ++ rest) = POk (SSelect s).
+    end ++ r_sort_clause o (sel_sort s) ++ r_limit o s ++ rest)
+  = match validate_group_by (sel_list s) (sel_group s) with
+    | Some e => PErr e
+    | None => POk (SSelect s)
+    end.
 Proof.
-  intros W E L. pose proof (wf_select_items o s W) as Wi.
+  intros W E L.
   rewrite r_select_eq in L. cbn [app length] in L.
   pose proof (lvl_end rest E) as L5.
-  unfold wf_select in W. repeat (apply andb_prop in W as [W ?]).
+  unfold wf_select_syn in W. repeat (apply andb_prop in W as [W ?]). rename W into Wi.
   destruct s as [sl fr w g ss la oa lim off]. cbn [sel_list sel_from sel_where sel_group sel_sort
     sel_limit_active sel_offset_active sel_limit sel_offset] in *.
   unfold select_.
@@ -644,8 +644,7 @@ Proof.
       [ | repeat split; side L5 | lens; lia ]);
     cbn [bind];
     (destruct E as [->| ->]; unfold table_expression, from_clause; cbn [bind K has_next negb andb];
-     match goal with H : match validate_group_by _ _ with _ => _ end = true |- _ =>
-       destruct (validate_group_by sl []); try discriminate end;
+     destruct (validate_group_by sl []); try reflexivity;
      destruct fuel as [|[|f]]; cbn [length] in *; try lia; reflexivity).
   - (* FROM *)
     match goal with H : (wf_tref o tr && wf_where o w)%bool = true |- _ => apply andb_prop in H as [Wt Ww] end.
@@ -669,170 +668,9 @@ Proof.
     cbn [bind]. unfold T2 in *.
     rewrite group_rt; auto; try side L3; [|lens; lia].
     cbn [bind negb andb].
-    match goal with H : match validate_group_by _ _ with _ => _ end = true |- _ =>
-       destruct (validate_group_by sl g); try discriminate end.
+    destruct (validate_group_by sl g); try reflexivity.
     unfold T3 in *.
     rewrite sort_rt; auto; try side L4; [|lens; lia].
     cbn [bind]. unfold T4 in *.
     rewrite limit_rt; auto; try side L5; try (lens; lia).
-Qed.
-
-(* ---- INSERT ---- *)
-Lemma insert_cols_rt : forall cols, cols <> [] -> forall acc fuel rest,
-  hdk rest <> KComma -> length (r_names cols ++ rest) < fuel ->
-  insert_cols_loop fuel acc (r_names cols ++ rest) = POk (acc ++ cols, rest).
-Proof.
-  induction cols as [|c cols IH]; intros Hne acc fuel rest F L; try congruence.
-  cbn [r_names] in *. destruct fuel as [|f]; [lia|]. rewrite insert_cols_loop_S.
-  destruct cols as [|c2 cols'].
-  - cbn [app r_ident] in *. dhd rest.
-  - cbn [app r_ident K] in *. cbn [length] in L.
-    rewrite (IH ltac:(discriminate) (acc ++ [c]) f rest F ltac:(lia)). rewrite <- app_assoc. reflexivity.
-Qed.
-
-Lemma insert_vals_rt o : forall vals, forallb (wf_value o) vals = true -> forall acc fuel rest,
-  length (r_values o vals ++ K KRparen :: rest) < fuel ->
-  insert_vals_loop fuel acc (r_values o vals ++ K KRparen :: rest) = POk (acc ++ vals, K KRparen :: rest).
-Proof.
-  induction vals as [|v vals IH]; intros W acc fuel rest L.
-  - cbn [r_values app] in *. destruct fuel as [|f]; [cbn in L; lia|]. rewrite insert_vals_loop_S.
-    cbn. rewrite app_nil_r. reflexivity.
-  - cbn [forallb] in W. apply andb_prop in W as [Wv Wvs].
-    cbn [r_values] in *. destruct (value_rt o v Wv) as (t & Et & Lt & Vt). rewrite Et in *.
-    destruct fuel as [|f]; [lia|]. rewrite insert_vals_loop_S.
-    destruct vals as [|v2 vals'].
-    + cbn [app K] in *. rewrite Lt, Vt. cbn [bind]. reflexivity.
-    + cbn [app K] in *. rewrite Lt, Vt. cbn [bind]. cbn [length] in L.
-      change ((KRparen, EmptyString) :: rest) with (K KRparen :: rest).
-      rewrite (IH Wvs (acc ++ [v]) f rest ltac:(cbn [K]; lia)). rewrite <- app_assoc. reflexivity.
-Qed.
-
-Lemma insert_rows_rt o : forall rows, forallb (forallb (wf_value o)) rows = true -> forall acc fuel rest,
-  hdk rest <> KLparen -> hdk rest <> KComma ->
-  length (r_rows o rows ++ rest) < fuel ->
-  insert_rows_loop fuel acc (r_rows o rows ++ rest) = POk (acc ++ rows, rest).
-Proof.
-  induction rows as [|r rows IH]; intros W acc fuel rest F1 F2 L.
-  - cbn [r_rows app] in *. destruct fuel as [|f]; [lia|]. rewrite insert_rows_loop_S, app_nil_r. dhd rest.
-  - cbn [forallb] in W. apply andb_prop in W as [Wr Wrs].
-    cbn [r_rows] in *. norm_all. destruct fuel as [|f]; [lia|]. rewrite insert_rows_loop_S. cbn [K].
-    cbn [length] in L. rewrite app_length in L. cbn [length] in L.
-    destruct rows as [|r2 rows'].
-    + cbn [app] in *.
-      change ((KRparen, EmptyString) :: rest) with (K KRparen :: rest).
-      rewrite (insert_vals_rt o r Wr [] (S f) rest ltac:(lens; lia)). cbn [bind K app]. dhd rest.
-    + cbn [app K] in *.
-      change ((KRparen, EmptyString) :: (KComma, EmptyString) :: r_rows o (r2 :: rows') ++ rest)
-        with (K KRparen :: ((KComma, EmptyString) :: r_rows o (r2 :: rows') ++ rest)).
-      rewrite (insert_vals_rt o r Wr [] (S f) _ ltac:(lens; lia)). cbn [bind K app].
-      rewrite (IH Wrs (acc ++ [r]) f rest F1 F2 ltac:(lens; lia)). rewrite <- app_assoc. reflexivity.
-Qed.
-
-Lemma insert_rt o table cols rows fuel rest :
-  forallb (forallb (wf_value o)) rows = true -> endtok rest ->
-  length (r_stmt o (SInsert table cols rows) ++ rest) <= fuel ->
-  insert_ fuel (K KInto :: r_ident table ::
-      match cols with
-      | [] => if o_empty_cols o then [K KLparen; K KRparen] else []
-      | _ => K KLparen :: r_names cols ++ [K KRparen]
-      end ++ K KValues :: r_rows o rows ++ rest) = POk (SInsert table cols rows).
-Proof.
-  intros W E L. cbn [r_stmt] in L. norm_all. cbn [length] in L.
-  pose proof (lvl_end rest E) as L5.
-  assert (Rows : forall f, length (r_rows o rows ++ rest) < f ->
-     insert_rows_loop f [] (r_rows o rows ++ rest) = POk (rows, rest)).
-  { intros f Lf. rewrite insert_rows_rt; auto; side L5. }
-  unfold insert_. cbn [K r_ident].
-  destruct cols as [|c cols].
-  - destruct (o_empty_cols o); cbn [app K] in *.
-    + destruct fuel as [|f]; [lia|]. rewrite insert_cols_loop_S. cbn [bind].
-      rewrite Rows; [reflexivity|]. cbn [length] in L. lia.
-    + cbn [bind]. rewrite Rows; [reflexivity|]. lia.
-  - cbn [app K] in *. norm_all.
-    rewrite (insert_cols_rt (c :: cols) ltac:(discriminate) [] fuel (K KRparen :: K KValues :: r_rows o rows ++ rest));
-      [|cbn; discriminate|cbn [K]; lens; lia].
-    cbn [bind K app]. rewrite Rows; [reflexivity|]. lens. lia.
-Qed.
-
-(* ---- UPDATE / DELETE ---- *)
-Lemma update_sets_rt o : forall sets, forallb (fun p => wf_vexpr o (snd p)) sets = true ->
-  forall acc fuel rest, hdk rest <> KIdent -> hdk rest <> KComma -> hdk rest <> KDot ->
-  length (r_sets o sets ++ rest) < fuel ->
-  update_set_loop fuel acc (r_sets o sets ++ rest) = POk (acc ++ sets, rest).
-Proof.
-  induction sets as [|[c v] sets IH]; intros W acc fuel rest F1 F2 F3 L.
-  - cbn [r_sets app] in *. destruct fuel as [|f]; [lia|]. rewrite update_set_loop_S, app_nil_r. dhd rest.
-  - cbn [forallb snd] in W. apply andb_prop in W as [Wv Ws].
-    cbn [r_sets] in *. norm_all. destruct fuel as [|f]; [lia|]. rewrite update_set_loop_S. cbn [r_ident K].
-    pose proof (vexpr_len o v Wv) as Lv.
-    cbn [length] in L. rewrite app_length in L.
-    destruct sets as [|s2 sets'].
-    + cbn [app] in *. rewrite (vexpr_rt o v rest Wv F3). cbn [bind]. dhd rest.
-    + cbn [app K] in *.
-      rewrite (vexpr_rt o v _ Wv ltac:(cbn; discriminate)). cbn [bind].
-      cbn [length] in L.
-      rewrite (IH Ws (acc ++ [(c, v)]) f rest F1 F2 F3 ltac:(lia)). rewrite <- app_assoc. reflexivity.
-Qed.
-
-Lemma update_rt o table sets w fuel rest :
-  forallb (fun p => wf_vexpr o (snd p)) sets = true -> wf_where o w = true -> endtok rest ->
-  length (r_stmt o (SUpdate table sets w) ++ rest) <= fuel ->
-  update_ fuel (r_ident table :: K KSet :: r_sets o sets ++ r_where o w ++ rest) = POk (SUpdate table sets w).
-Proof.
-  intros Ws Ww E L. cbn [r_stmt] in L. norm_all. cbn [length] in L. rewrite app_length in L.
-  pose proof (lvl_end rest E) as L5.
-  pose proof (lvl_where o w rest ltac:(lia)) as L1.
-  unfold update_. cbn [r_ident K].
-  rewrite update_sets_rt; auto; try side L1; [|lens; lia].
-  cbn [bind]. rewrite where_rt; auto; try side L5; [|lia]. reflexivity.
-Qed.
-
-Lemma delete_rt o table w fuel rest : wf_where o w = true -> endtok rest ->
-  length (r_stmt o (SDelete table w) ++ rest) <= fuel ->
-  delete_ fuel (K KFrom :: r_ident table :: r_where o w ++ rest) = POk (SDelete table w).
-Proof.
-  intros Ww E L. cbn [r_stmt] in L. norm_all. cbn [length] in L.
-  pose proof (lvl_end rest E) as L5.
-  unfold delete_. cbn [r_ident K]. rewrite where_rt; auto; try side L5; [|lia]. reflexivity.
-Qed.
-
-(* ---- CREATE TABLE ---- *)
-Lemma coldefs_rt o : forall cols, forallb (fun d => wf_sqltype o (cd_type d)) cols = true ->
-  forall acc fuel rest, length (r_coldefs o cols ++ K KRparen :: rest) < fuel ->
-  table_elements_loop fuel acc (r_coldefs o cols ++ K KRparen :: rest) = POk (acc ++ cols, K KRparen :: rest).
-Proof.
-  induction cols as [|[name ty] cols IH]; intros W acc fuel rest L.
-  - cbn [r_coldefs app] in *. destruct fuel as [|f]; [cbn in L; lia|]. rewrite table_elements_loop_S, app_nil_r.
-    reflexivity.
-  - cbn [forallb cd_type] in W. apply andb_prop in W as [Wt Ws].
-    cbn [r_coldefs cd_name cd_type] in *. norm_all. destruct fuel as [|f]; [lia|].
-    rewrite table_elements_loop_S. cbn [r_ident].
-    assert (Tail : forall f', length (match cols with [] => [] | _ :: _ => K KComma :: r_coldefs o cols end ++ K KRparen :: rest) <= f' ->
-      match match cols with [] => [] | _ :: _ => K KComma :: r_coldefs o cols end ++ K KRparen :: rest with
-      | (KComma, _) :: r2 => table_elements_loop f' (acc ++ [mkColDef name ty]) r2
-      | _ => POk (acc ++ [mkColDef name ty], match cols with [] => [] | _ :: _ => K KComma :: r_coldefs o cols end ++ K KRparen :: rest)
-      end = POk (acc ++ mkColDef name ty :: cols, K KRparen :: rest)).
-    { intros f' Lf. destruct cols as [|d2 cols'].
-      - cbn [app K]. reflexivity.
-      - cbn [app K] in *. cbn [length] in Lf.
-        change ((KRparen, EmptyString) :: rest) with (K KRparen :: rest).
-        rewrite (IH Ws (acc ++ [mkColDef name ty]) f' rest ltac:(cbn [K]; lia)). rewrite <- app_assoc. reflexivity. }
-    cbn [length] in L. rewrite app_length in L.
-    destruct ty as [| |len|]; cbn [r_sqltype app K length] in *.
-    + cbn [bind]. apply Tail. lia.
-    + cbn [bind]. apply Tail. lia.
-    + cbn [wf_sqltype] in Wt. rewrite (require_int_rt o len _ Wt). cbn [bind]. apply Tail. lia.
-    + cbn [bind]. apply Tail. lia.
-Qed.
-
-Lemma create_table_rt o name cols fuel rest :
-  forallb (fun d => wf_sqltype o (cd_type d)) cols = true ->
-  length (r_stmt o (SCreateTable name cols) ++ rest) <= fuel ->
-  create_ fuel (K KTable :: r_ident name :: K KLparen :: r_coldefs o cols ++ K KRparen :: rest)
-  = POk (SCreateTable name cols).
-Proof.
-  intros W L. cbn [r_stmt] in L. norm_all. cbn [length] in L.
-  unfold create_, create_table, table_elements. cbn [K r_ident].
-  change ((KRparen, EmptyString) :: rest) with (K KRparen :: rest).
-  rewrite (coldefs_rt o cols W [] fuel rest ltac:(cbn [K]; lia)). reflexivity.
 Qed.
